@@ -298,7 +298,7 @@ func init() {
 			if tier == "thorough" {
 				return 25 * time.Minute
 			}
-			return 150 * time.Second
+			return 5 * time.Minute
 		},
 		Units: func(tier string) []engine.Unit {
 			var us []engine.Unit
@@ -307,7 +307,7 @@ func init() {
 				us = append(us, engine.Unit{Name: s.Name, Run: func(r *engine.Rec) { explore(r, s) }})
 			}
 			us = append(us, twoFanUnits(tier)...)
-			us = append(us, engine.Unit{Name: "invalid-fan-out", Run: invalid})
+			us = append(us, engine.Unit{Name: "invalid-fan-out", Early: true, Run: invalid})
 			return us
 		},
 	})
